@@ -1,3 +1,4 @@
+import TantivyModel.Proofs.SSTable.FileOrd
 import TantivyModel.Proofs.SSTable.WriterFull
 import TantivyModel.Proofs.SSTable.SearchLim
 import TantivyModel.Proofs.SSTable.BestSlope
@@ -1138,6 +1139,81 @@ theorem C15_store_locate_then_get (gs : List GroupSpec) (hg : GoodStore gs) (ord
 example : (openStore (storeBytes [⟨100, 5, 10, 3, ⟨0, 0, 90⟩, [⟨9, 90, 200⟩], 200⟩])).get
       ((openStore (storeBytes [⟨100, 5, 10, 3, ⟨0, 0, 90⟩, [⟨9, 90, 200⟩], 200⟩])).locateOrd 12)
     = some ⟨9, 90, 200⟩ := by decide
+
+/-! ## round 2: `ord_to_term` on the bytes of a whole file -/
+
+/-- `Dictionary::open` + `Dictionary::ord_to_term` composed on the BYTES of a version-3 file — footer,
+index region `fst | block-address store | fst_len`, `binary_search_ord`, `get`, the byte range of
+the frame, `read_block`, value block skipped, front-coded keys decoded, the `(ord - first_ordinal)`-th
+key: for every list of non-empty strictly increasing key blocks, every payload list whose value
+blocks `skip` drops, EVERY well-formed store (`GoodStore`: any slopes/widths that fit) that lists
+one address per block — first ordinal = number of keys before the block, byte range = the frame —
+and ANY non-empty FST byte string (this operation never reads it), the reader returns exactly the
+`ord`-th key of the concatenated blocks and `Ok(false)` (`none`) past the end. -/
+theorem C15_file_ord_to_term (skip : List UInt8 → List UInt8) (blocks : List (List Key)) (ps : List (List UInt8))
+    (gs : List GroupSpec) (fst : List UInt8) (numTerms version ord : Nat)
+    (hinc : ∀ b ∈ blocks, StrictInc b) (hne : ∀ b ∈ blocks, b ≠ [])
+    (hskip : ∀ (i : Nat) p b, ps[i]? = some p → blocks[i]? = some b → skip p = encodeBlockKeys b)
+    (hlen : ps.length = blocks.length)
+    (hpsz : ∀ p ∈ ps, p ≠ [] ∧ p.length + 1 < 4294967296)
+    (hg : GoodStore gs)
+    (hcount : (allOrds gs).length = blocks.length)
+    (hAddr : ∀ (id : Nat) a, (openStore (storeBytes gs)).get id = some a →
+      a.firstOrd = ordStart blocks id ∧ a.start = frameStart ps id ∧ a.stop = frameStart ps (id + 1))
+    (hfst0 : fst.length ≠ 0) (hfst : fst.length < 18446744073709551616)
+    (hdata : (frameBlocks ps).length < 18446744073709551616)
+    (hn : numTerms < 18446744073709551616) (hv : version < 4294967296) :
+    fileOrdToTerm skip (finishFile (frameBlocks ps) (fst ++ storeBytes gs ++ u64enc fst.length) numTerms version) ord
+      = some (blocks.flatten[ord]?) :=
+  file_ord_to_term' skip blocks ps gs fst numTerms version ord hinc hne hskip hlen hpsz hg hcount hAddr
+    hfst0 hfst hdata hn hv
+
+/-- instance: the file the model writer lays out for a strictly increasing key list (`VoidSSTable`,
+any block length): `ord_to_term` on its bytes is `ks[ord]?` -/
+theorem C15_written_file_ord_to_term (blockLen : Nat) (ks : List Key) (hs : StrictInc ks)
+    (gs : List GroupSpec) (fst : List UInt8) (ord : Nat)
+    (hsize : ∀ b ∈ encodeBlocks blockLen ks, b.length + 1 < 4294967296)
+    (hg : GoodStore gs)
+    (hcount : (allOrds gs).length = (blocksOf id blockLen ks).length)
+    (hAddr : ∀ (i : Nat) a, (openStore (storeBytes gs)).get i = some a →
+      a.firstOrd = ordStart (blocksOf id blockLen ks) i ∧ a.start = frameStart (encodeBlocks blockLen ks) i ∧
+        a.stop = frameStart (encodeBlocks blockLen ks) (i + 1))
+    (hfst0 : fst.length ≠ 0) (hfst : fst.length < 18446744073709551616)
+    (hdata : (frameBlocks (encodeBlocks blockLen ks)).length < 18446744073709551616)
+    (hn : ks.length < 18446744073709551616) :
+    fileOrdToTerm id (finishFile (frameBlocks (encodeBlocks blockLen ks))
+        (fst ++ storeBytes gs ++ u64enc fst.length) ks.length Gen.SSTABLE_VERSION) ord = some ks[ord]? := by
+  have hfl := blocksOf_flatten (id : Key → Key) blockLen ks
+  have hall : ∀ b ∈ blocksOf id blockLen ks, StrictInc b :=
+    strictInc_of_mem_flatten (by rw [hfl]; exact hs)
+  have hne : ∀ b ∈ blocksOf id blockLen ks, b ≠ [] := cutBlocks_nonempty id blockLen [] 0 [] ks
+  have hpsz : ∀ p ∈ encodeBlocks blockLen ks, p ≠ [] ∧ p.length + 1 < 4294967296 := by
+    intro p hp
+    refine ⟨?_, hsize p hp⟩
+    unfold encodeBlocks at hp
+    obtain ⟨b, hb, rfl⟩ := List.mem_map.mp hp
+    have := encodeEntries_length_ge [] b
+    intro e
+    unfold encodeBlockKeys at e
+    rw [e] at this
+    have : b.length = 0 := by simpa using this
+    exact hne b hb (List.eq_nil_of_length_eq_zero this)
+  have h := C15_file_ord_to_term id (blocksOf id blockLen ks) (encodeBlocks blockLen ks) gs fst ks.length
+    Gen.SSTABLE_VERSION ord hall hne
+    (by
+      intro i p b hp hb
+      unfold encodeBlocks at hp
+      rw [List.getElem?_map, hb] at hp
+      simp only [Option.map_some, Option.some.injEq] at hp
+      rw [← hp]; rfl)
+    (by simp [encodeBlocks]) hpsz hg hcount hAddr hfst0 hfst hdata hn (by decide)
+  rw [h, hfl]
+
+/-- the hypotheses are satisfiable and the reader computes: a two-block file, store with one group -/
+example : fileOrdToTerm id (finishFile (frameBlocks [[16, 7], [16, 9]])
+      ([1, 2, 3] ++ storeBytes [⟨7, 5, 1, 3, ⟨0, 0, 7⟩, [⟨1, 7, 14⟩], 14⟩] ++ u64enc 3) 2 3) 1 = some (some [9]) ∧
+    fileOrdToTerm id (finishFile (frameBlocks [[16, 7], [16, 9]])
+      ([1, 2, 3] ++ storeBytes [⟨7, 5, 1, 3, ⟨0, 0, 7⟩, [⟨1, 7, 14⟩], 14⟩] ++ u64enc 3) 2 3) 2 = some none := by decide
 
 /-! ## non-vacuity -/
 
